@@ -7,6 +7,8 @@ in the code's order (backslash first).  `_tokenize` is the generator transcribed
 function returning the token list, or `none` where the generator's `next(iterdesc)` raises
 `StopIteration` (a description ending in a lone backslash: surfaces as `RuntimeError`).
 `_parse` is the fold over tokens with `add`.
+`dropName` / `select`: what `serverFromString` / `clientFromString` do with the parsed description before a
+plugin parser or a built-in parser sees it (endpoint name taken off; one positional index or keyword name passed on).
 -/
 namespace Twisted.Endpoints.Quote
 
@@ -96,5 +98,26 @@ def describe : List Item → Text
   | [] => []
   | [i] => render i
   | i :: is => render i ++ ':' :: describe is
+
+/-- What a plugin parser receives once the endpoint name is taken off
+    (`_parseServer`: `return (plugin, args[1:], kw)`; `clientFromString`: `aname = args.pop(0)` then
+    `plugin.parseStreamClient(reactor, *args, **kwargs)`). -/
+def dropName (r : Except Err Parsed) : Except Err Parsed :=
+  r.map fun p => { p with args := p.args.drop 1 }
+
+/-- `kw[k]` -/
+def kwGet (kw : List (Text × Text)) (k : Text) : Option Text :=
+  (kw.find? (·.1 = k)).map (·.2)
+
+/-- A slot of the parsed description: `args[i]` or `kw[k]` — the value a built-in parser
+    (`_parseUNIX(factory, *args[1:], **kw)`, `_parseClientTCP(*args, **kwargs)`, …) passes on to the reactor. -/
+inductive Sel where
+  | arg (i : Nat)
+  | key (k : Text)
+  deriving Repr, DecidableEq
+
+def select (p : Parsed) : Sel → Option Text
+  | .arg i => p.args[i]?
+  | .key k => kwGet p.kw k
 
 end Twisted.Endpoints.Quote
